@@ -7,7 +7,7 @@ UNIT = dict(
     prelude=["cfgwatch_env.rs"],
     spec=["spec.rs"],
     rules=dict(
-        env_methods=["notify_waiters", "fetch_add", "load", "vx_enable", "vx_wait"],
+        env_methods=["notify_waiters", "notify_one", "fetch_add", "load", "vx_enable", "vx_wait"],
         subst=[("Arc<Notify>", "NotifyS"), ("Arc<AtomicU64>", "CountS")],
     ),
     extract=[
